@@ -60,7 +60,27 @@ def _correlated(ctx, fi, use_node, name):
         tg = st.targets if isinstance(st, ast.Assign) else [st.target]
         if name not in [nm for t in tg for nm in cfgmod.target_names(t)]:
             continue
-        if st.lineno >= use_node.stmt.lineno or not loops_of(st) <= use_loops:
+        if st.lineno >= use_node.stmt.lineno:
+            continue
+        in_other_loop = not loops_of(st) <= use_loops
+        # flag idiom: `x = ...; found = True` in one block, `found = False` everywhere else, use under `found`
+        blk = None
+        pst = par.get(id(st))
+        for fld in ('body', 'orelse', 'finalbody'):
+            b = getattr(pst, fld, None)
+            if isinstance(b, list) and any(z is st for z in b):
+                blk = b
+        flags = [z.targets[0].id for z in (blk or ()) if isinstance(z, ast.Assign) and len(z.targets) == 1 and isinstance(z.targets[0], ast.Name)
+                 and isinstance(z.value, ast.Constant) and z.value.value is True]
+        for fl in flags:
+            if (fl, True) in U:
+                others = [z for z in ctx.own_nodes(fi) if isinstance(z, ast.Assign) and any(isinstance(t, ast.Name) and t.id == fl for t in z.targets)
+                          and not (isinstance(z.value, ast.Constant) and z.value.value in (True, False))]
+                trues = [z for z in ctx.own_nodes(fi) if isinstance(z, ast.Assign) and any(isinstance(t, ast.Name) and t.id == fl for t in z.targets)
+                         and isinstance(z.value, ast.Constant) and z.value.value is True]
+                if not others and all(any(z is q for q in (blk or ())) for z in trues):
+                    return True
+        if in_other_loop:
             continue
         D, dexprs = _facts(ctx, fi, st, True)
         if not D or not D <= U:
